@@ -1,4 +1,5 @@
 pub mod gamespy;
+pub mod master;
 pub mod minecraft;
 pub mod misc;
 pub mod quake;
